@@ -31,6 +31,7 @@ const ruleNote = "Every case builds a fresh engine.NewRuleIndex() or engine.NewP
 	"rand-index / rand-proc (seeded: 1-12 rules with 1-3 patterns of depth 1-4 incl. wildcards at every level, duplicate patterns, empty segments; optional block of up to 50 state rules on one pattern; regexps; scope requirements; suppression lists; priorities; 1-30 events per history biased towards matching, names {e,f,g}; " +
 	"event kinds with '*' segments or one dotted segment; non-string state keys; workers 1..8; AddEventAndWait one by one or a burst of AddEvent + ThreadPool.WaitAll; optional stop/AddRule/start in mid-history; every fifth event lets one matching rule add a child event through a child monitor from inside its action, the child is judged with the scope of its cascade); " +
 	"unhashable-index / unhashable-proc (list and map values on both sides); mask64 (60-140 state rules on one kind pattern, events aimed at rule numbers around 64 and 128, bare index and processor, run last in their own child processes because the known defect there does not terminate). " +
+	"ecal (the same random rule sets and histories written as an ECAL program: rules as sink declarations with kindmatch/scopematch/statematch/priority/suppresses, root events sent by the built-in addEventAndWait(name, kind, state[, scope map]) and child events by addEvent from inside a sink; a Go function called in every sink body records (rule, event id); values restricted to what ECAL source can say); " +
 	"Not generated (statement silent): a rule naming itself in its suppression list, numerically equal values of different Go types, NaN, regular expressions against list/map/float/bool values, regular expressions that could match a string form of nil, empty scope path requirements. " +
 	"Non-trivial = distinct case (rule set x history / rule set x event list) in which at least one event has a non-empty reference fire (match) set."
 
@@ -115,6 +116,8 @@ func Run(c *core.Ctx) {
 		lap("random")
 		runConc(c)
 		lap("conc")
+		runEcal(c)
+		lap("ecal")
 	}
 	if part == "" || part == "hazard" {
 		runHazard(c)
